@@ -24,6 +24,27 @@ type cs struct {
 	Shared    bool   `json:"shared"`
 	Seed      uint64 `json:"seed"`
 	DeltaBit0 int    `json:"delta_bit0"` // iknp only: -1 random, 0/1 forced
+	// Dirty: the result buffers handed to the library are not fresh: every bit is set on entry (a caller that
+	// reuses its buffers)
+	Dirty bool `json:"dirty,omitempty"`
+}
+
+func dirtyWords(w []uint64, on bool) []uint64 {
+	if on {
+		for i := range w {
+			w[i] = ^uint64(0)
+		}
+	}
+	return w
+}
+
+func dirtyLabels(l []ot.Label, on bool) []ot.Label {
+	if on {
+		for i := range l {
+			l[i] = ot.Label{D0: ^uint64(0), D1: ^uint64(0)}
+		}
+	}
+	return l
 }
 
 func pattern(p string, n int, batch int) []bool {
@@ -98,7 +119,10 @@ func mkWires(rd *drbg.Reader, n int) []ot.Wire {
 func runCase(ctx *runner.Ctx, k cs) {
 	ctx.Eval(1)
 	fail := func(site, what string) {
-		ctx.Violate(k.Variant+"."+site, fmt.Sprintf("%s (variant=%s sizes=%v pattern=%s shared=%v seed=%d)", what, k.Variant, k.Sizes, k.Pattern, k.Shared, k.Seed), k)
+		if k.Dirty {
+			site += ".reused-result-buffer"
+		}
+		ctx.Violate(k.Variant+"."+site, fmt.Sprintf("%s (variant=%s sizes=%v pattern=%s shared=%v seed=%d reused result buffers=%v)", what, k.Variant, k.Sizes, k.Pattern, k.Shared, k.Seed, k.Dirty), k)
 	}
 	switch {
 	case k.Variant == "iknp-labels" || k.Variant == "iknp-labels-mal" || k.Variant == "iknp-bits" || k.Variant == "iknp-mixed-bl" || k.Variant == "iknp-mixed-lb":
@@ -144,7 +168,7 @@ func runIKNP(ctx *runner.Ctx, k cs, fail func(site, what string)) {
 		delta = s.Delta
 		for i, n := range k.Sizes {
 			if bitForm(k, i) {
-				bs[i].sbits = make([]uint64, (n+63)/64+1)
+				bs[i].sbits = dirtyWords(make([]uint64, (n+63)/64+1), k.Dirty)
 				if err := s.SendBits(n, bs[i].sbits); err != nil {
 					return err
 				}
@@ -174,12 +198,12 @@ func runIKNP(ctx *runner.Ctx, k cs, fail func(site, what string)) {
 						choices[j/64] |= 1 << (j % 64)
 					}
 				}
-				bs[i].rbits = make([]uint64, (n+63)/64+1)
+				bs[i].rbits = dirtyWords(make([]uint64, (n+63)/64+1), k.Dirty)
 				if err := r.ReceiveBits(choices, bs[i].rbits, n); err != nil {
 					return err
 				}
 			} else {
-				bs[i].recv = make([]ot.Label, n)
+				bs[i].recv = dirtyLabels(make([]ot.Label, n), k.Dirty)
 				if err := r.Receive(bs[i].flags, bs[i].recv, mal); err != nil {
 					return err
 				}
@@ -217,8 +241,8 @@ func runIKNP(ctx *runner.Ctx, k cs, fail func(site, what string)) {
 				return
 			}
 			for j := n; j < len(bt.sbits)*64; j++ {
-				if bt.sbits[j/64]>>(j%64)&1 == 1 || bt.rbits[j/64]>>(j%64)&1 == 1 {
-					fail("beyond-n", fmt.Sprintf("batch %d (n=%d): bit %d beyond n is set", i, n, j))
+				if (bt.sbits[j/64]>>(j%64)&1 == 1) != k.Dirty || (bt.rbits[j/64]>>(j%64)&1 == 1) != k.Dirty {
+					fail("beyond-n", fmt.Sprintf("batch %d (n=%d): bit %d beyond n was changed", i, n, j))
 					return
 				}
 			}
@@ -291,7 +315,7 @@ func runOT(ctx *runner.Ctx, k cs, fail func(site, what string)) {
 	for i, n := range k.Sizes {
 		wires[i] = mkWires(wrd, n)
 		flags[i] = pattern(k.Pattern, n, i)
-		res[i] = make([]ot.Label, n)
+		res[i] = dirtyLabels(make([]ot.Label, n), k.Dirty)
 	}
 	errS, errR := memio.Run2(a, b, func(io *memio.End) error {
 		o := mkOT(k.Variant, drbg.New(k.Seed*2+1), k.Shared)
@@ -442,6 +466,28 @@ func work(ctx *runner.Ctx) {
 		if n <= 40 || n%64 <= 1 || n%64 == 63 || n%512 <= 1 || n%512 == 511 {
 			cases = append(cases, cs{Variant: "iknp-labels-mal", Sizes: []int{n}, Pattern: "lfsr", Seed: seed, DeltaBit0: -1})
 			cases = append(cases, cs{Variant: "iknp-labels-mal", Sizes: []int{n}, Pattern: "one", Seed: seed, DeltaBit0: -1})
+		}
+	}
+	// result buffers that are not fresh
+	for _, n := range []int{1, 5, 63, 64, 65, 70, 130, 511, 512, 513, 600} {
+		for _, v := range []string{"iknp-bits", "iknp-labels", "iknp-labels-mal"} {
+			for d0 := 0; d0 <= 1; d0++ {
+				for _, p := range []string{"zero", "one", "alt0", "lfsr"} {
+					cases = append(cases, cs{Variant: v, Sizes: []int{n}, Pattern: p, Seed: seed, DeltaBit0: d0, Dirty: true})
+				}
+			}
+		}
+		for _, v := range []string{"cot", "cot-mal", "rot", "rot-mal"} {
+			cases = append(cases, cs{Variant: v, Sizes: []int{n}, Pattern: "lfsr", Seed: seed, Dirty: true})
+			cases = append(cases, cs{Variant: v, Sizes: []int{n, 9}, Pattern: "alt0", Seed: seed, Shared: true, Dirty: true})
+		}
+		if n <= 130 {
+			cases = append(cases, cs{Variant: "co", Sizes: []int{n}, Pattern: "lfsr", Seed: seed, Dirty: true})
+		}
+	}
+	for _, v := range []string{"iknp-bits", "iknp-labels", "iknp-mixed-bl", "iknp-mixed-lb"} {
+		for _, sz := range [][]int{{8, 65}, {65, 8}, {513, 70}, {64, 64, 64}} {
+			cases = append(cases, cs{Variant: v, Sizes: sz, Pattern: "lfsr", Seed: seed, DeltaBit0: 1, Dirty: true})
 		}
 	}
 	// histories: consecutive batches on one instance
